@@ -102,14 +102,22 @@ func c20OpClass(op string) string {
 func c20ExecSend(c *vx.Ctx, w *vx.W, cs c20Case) {
 	qpeerBubble(c, w, "C20", func(t *testing.T) {
 		side := qpeerSide(cs.Side)
-		styp := qpeerStype(cs.Styp)
 		q := qpeerNew(t, side, func(p *transportParameters) {
 			p.initialMaxStreamsBidi = 4
 			p.initialMaxStreamsUni = 4
 			p.initialMaxData = c20PeerConnWin
-			p.initialMaxStreamDataBidiLocal = c20PeerStreamWin
-			p.initialMaxStreamDataBidiRemote = c20PeerStreamWin
-			p.initialMaxStreamDataUni = c20PeerStreamWin
+			// only the parameter that applies to the streams of this case is small
+			p.initialMaxStreamDataBidiLocal = 1 << 20
+			p.initialMaxStreamDataBidiRemote = 1 << 20
+			p.initialMaxStreamDataUni = 1 << 20
+			switch cs.Styp {
+			case "uni":
+				p.initialMaxStreamDataUni = c20PeerStreamWin
+			case "bidi": // opened by the conn: "remote" for the peer that sends the parameter
+				p.initialMaxStreamDataBidiRemote = c20PeerStreamWin
+			case "accepted": // opened by the peer
+				p.initialMaxStreamDataBidiLocal = c20PeerStreamWin
+			}
 		})
 		tp := q.tc.sentTransportParameters
 		if tp == nil {
@@ -118,9 +126,16 @@ func c20ExecSend(c *vx.Ctx, w *vx.W, cs c20Case) {
 		adv := &c20AdvMon{advC: tp.initialMaxData, advS: map[streamID]int64{}, defS: tp.initialMaxStreamDataBidiLocal}
 		var streams [2]*Stream
 		for i := range streams {
-			s, err := q.tc.conn.newLocalStream(canceledContext(), styp)
+			var s *Stream
+			var err error
+			if cs.Styp == "accepted" {
+				q.write(debugFrameStream{id: newStreamID(side.peer(), bidiStream, int64(i))})
+				s, err = q.tc.conn.AcceptStream(canceledContext())
+			} else {
+				s, err = q.tc.conn.newLocalStream(canceledContext(), qpeerStype(cs.Styp))
+			}
 			if err != nil {
-				t.Fatalf("newLocalStream: %v", err)
+				t.Fatalf("cannot create stream %d: %v", i, err)
 			}
 			s.SetReadContext(canceledContext())
 			s.SetWriteContext(canceledContext())
@@ -546,28 +561,32 @@ func TestVerif_C20(t *testing.T) {
 		c.Assume("the scripted peer is taken to know every MAX_DATA / MAX_STREAM_DATA frame the conn has put on the wire, even in packets it later declares lost")
 
 		type combo struct{ side, styp string }
-		combos := vx.Pick(c, []combo{{"server", "uni"}}, []combo{{"server", "uni"}, {"client", "bidi"}})
+		sendCombos := vx.Pick(c, []combo{{"server", "uni"}}, []combo{{"server", "uni"}, {"client", "bidi"}, {"server", "accepted"}})
+		sendCombosShallow := []combo{{"server", "bidi"}, {"server", "accepted"}, {"client", "uni"}}
+		recvCombos := vx.Pick(c, []combo{{"server", "uni"}}, []combo{{"server", "uni"}, {"client", "bidi"}})
 		sendOps := vx.Pick(c,
 			[]string{"w100:0", "w5000:0", "fl:0", "w100:1", "fl:1", "md:-50", "md:120", "msd0:-50", "msd0:0", "msd0:120", "ack", "loss", "pto"},
 			[]string{"w100:0", "w5000:0", "fl:0", "w100:1", "w5000:1", "fl:1", "md:-50", "md:0", "md:120", "msd0:-50", "msd0:0", "msd0:120", "msd1:120", "ack", "loss", "pto"})
 		recvOps := vx.Pick(c,
-			[]string{"s0:+40", "s0:sl0", "s0:sl1", "s0:cl0", "s0:cl1", "s1:+40", "s1:cl0", "s1:cl1", "r1:cl1", "rd0", "rs0", "cr0", "ack", "loss"},
+			[]string{"s0:+40", "s0:sl0", "s0:sl1", "s0:cl0", "s0:cl1", "s1:+40", "s1:cl0", "s1:cl1", "r0:cl0", "r1:cl1", "rd0", "rs0", "cr0", "ack", "loss"},
 			[]string{"s0:+40", "s0:sl-1", "s0:sl0", "s0:sl1", "s0:cl-1", "s0:cl0", "s0:cl1", "s1:+40", "s1:sl1", "s1:cl0", "s1:cl1", "r0:sl1", "r0:cl0", "r1:cl1", "rd0", "rs0", "rd1", "cr0", "cr1", "ack", "loss"})
 		type part struct {
-			name  string
-			ops   []string
-			depth int
-			root  qpeerGen
-			exec  func(*vx.Ctx, *vx.W, c20Case)
+			name   string
+			combos []combo
+			ops    []string
+			depth  int
+			root   qpeerGen
+			exec   func(*vx.Ctx, *vx.W, c20Case)
 		}
 		parts := []part{
-			{"recv", recvOps, vx.Pick(c, 5, 5), c20RecvGen{}, c20ExecRecv},
-			{"send", sendOps, vx.Pick(c, 5, 5), c20SendGen{}, c20ExecSend},
+			{"send-kinds", sendCombosShallow, sendOps, vx.Pick(c, 3, 4), c20SendGen{}, c20ExecSend},
+			{"recv", recvCombos, recvOps, vx.Pick(c, 5, 5), c20RecvGen{}, c20ExecRecv},
+			{"send", sendCombos, sendOps, vx.Pick(c, 5, 5), c20SendGen{}, c20ExecSend},
 		}
 		for _, p := range parts {
 			vx.Enumerate(c, p.name, vx.Opts{Serial: true, Crumb: true}, func(yield0 func(c20Case) bool) {
 				yield := qpeerDeadlineYield(c, yield0)
-				for _, cb := range combos {
+				for _, cb := range p.combos {
 					if !qpeerEnumerate(p.root, p.ops, p.depth, func(path []string) bool {
 						return yield(c20Case{Side: cb.side, Styp: cb.styp, Ops: path})
 					}) {
